@@ -1,5 +1,5 @@
 (* Filter.normalize_config (openfilter/filter_runtime/filter.py) and the normalize_config of
-   the built-in filters Util, VideoIn, ImageIn, VideoOut, ImageOut, Recorder, Webvis
+   the built-in filters Util, VideoIn, ImageIn, VideoOut, ImageOut, Recorder, Webvis, MQTTOut, REST
    (openfilter/filter_runtime/filters/*.py), transliterated over a small configuration value
    type.  Model only: the lemmas are in Normalize_Proofs.v.
 
@@ -16,7 +16,10 @@
 
    Not modelled (the correspondence check pins or avoids them): environment variables read by
    Webvis (FILTER_ENABLE_JSON / FILTER_SLEEP_INTERVAL are unset), validity of '@date' values of
-   exit_after (the parameter [date_ok]), Python float() forms with exponent or underscores. *)
+   exit_after (the parameter [date_ok]), Python float() forms with exponent or underscores, the
+   random suffix of MQTTOut client_id=True (canonicalised to "_RANDOM"), REST resource_path
+   (os.path.isdir; answered Err EOther), REST endpoints given as plain dicts instead of
+   RESTConfig.Endpoint (the class raises AttributeError on them; the model treats both alike). *)
 From Coq Require Import ZArith List Bool Lia.
 From OF Require Import Base.Str Base.Val Conf.StrExt Conf.Topics Conf.Options.
 Import ListNotations.
@@ -630,6 +633,271 @@ Section WithDates.
     else Ok c2.
 End WithDates.
 
+(* ================= MQTTOut and REST ======================================================== *)
+Section WithDates2.
+  Variable date_ok : str -> bool.
+
+  Definition not_none (v : cval) : bool := match v with VNone => false | _ => true end.
+
+  (* ---- MQTTOut ---------------------------------------------------------------------------------- *)
+  (* the random suffix of client_id=True is canonicalised to "RANDOM" by the correspondence check *)
+  Definition s_RANDOM : str := [95;82;65;78;68;79;77].   (* "_RANDOM" *)
+  Definition s_None : str := [78;111;110;101].             (* "None" *)
+  Definition mqtt_options : list str := [s_qos; s_retain].
+
+  (* "mqtt://[host][:port][/base_topic][!opt...][;mapping...]" spread over the configuration *)
+  Definition mqtt_output (c : dict cval) (o : str) : res (dict cval) :=
+    if negb (starts_with s_mqtt_scheme o) then Err EValue else
+    ' (output, tps) <- parse_topics (skipn 7 o) None MapNone s_main ;;
+    ca <- match tps with
+          | TPlain (m :: ms) =>
+              if not_none (dattr s_mappings c) then Err EValue
+              else Ok (dset s_mappings (VList (map VStr (m :: ms))) c)
+          | _ => Ok c
+          end ;;
+    let '(addr_n_base, options) := parse_options output in
+    if negb (forallb (fun kv => str_mem (fst kv) mqtt_options) options) then Err EValue else
+    if existsb (fun kv => not_none (dattr (fst kv) ca)) options then Err EValue else
+    let cb := fold_left (fun d kv => dset (fst kv) (cval_of_oval (snd kv)) d) options ca in
+    let '(addr, base_topic) := split1 47 addr_n_base in
+    cc <- match base_topic with
+          | Some bt =>
+              if not_none (dattr s_base_topic cb) then Err EValue
+              else Ok (dset s_base_topic (if is_empty bt then VNone else VStr bt) cb)
+          | None => Ok cb
+          end ;;
+    let '(host, port) := rsplit1 58 addr in
+    cd <- (if negb (is_empty host) || (match port with Some _ => true | None => false end) then
+             if not_none (dattr s_broker_host cc) || not_none (dattr s_broker_port cc) then Err EValue else
+             let c1 := if is_empty host then cc else dset s_broker_host (VStr host) cc in
+             match port with
+             | None => Ok c1
+             | Some p => match parse_int p with Some z => Ok (dset s_broker_port (VInt z) c1) | None => Err EValue end
+             end
+           else Ok cc) ;;
+    Ok (ddel s_outputs cd).
+
+  (* one text mapping "[topic][/path][>dst][!opt...]" *)
+  Definition mqtt_mapping_text (m : str) : res (dict cval) :=
+    if starts_with s_tcp_scheme m || starts_with s_ipc_scheme m then Err EValue else
+    let '(srcdst, options) := parse_options m in
+    let parts := map strip (split_on 62 srcdst) in
+    let src := nth 0 parts [] in
+    let dst := nth 1 parts [] in
+    r <- (match src with
+          | _ :: _ =>
+              match map strip (split_on 47 src) with
+              | src_topic :: src_path =>
+                  if is_nil src_path && negb (is_empty dst) then Err EValue
+                  else Ok (src_topic, src_path)
+              | [] => Err EOther
+              end
+          | [] => if negb (is_empty dst) then Err EValue else Ok ([], [])
+          end) ;;
+    let '(src_topic, src_path) := r in
+    Ok [(s_dst_topic, if is_empty dst then VNone else VStr dst);
+        (s_src_topic, if is_empty src_topic then VNone else VStr src_topic);
+        (s_src_path, if is_nil src_path then VNone else VStr (join_on 47 src_path));
+        (s_options, VDict (cdict_of_opts options))].
+
+  Definition mqtt_elem1 (e : cval) : res (dict cval) :=
+    match e with
+    | VDict r => Ok r
+    | VStr m => mqtt_mapping_text m
+    | _ => Err EOther
+    end.
+
+  Definition last_component (s : str) : str := last (split_on 47 s) [].
+
+  Definition mqtt_elem2 (r : dict cval) : res (dict cval) :=
+    o <- match dattr s_options r with VNone => Ok [] | VDict o => Ok o | _ => Err EOther end ;;
+    let r1 := dset s_options (VDict o) r in
+    if negb (forallb (fun kv => str_mem (fst kv) mqtt_options) o) then Err EValue else
+    dst <- match dattr s_dst_topic r1 with
+           | VNone => Ok None
+           | VStr d => Ok (Some d)
+           | _ => Err EOther
+           end ;;
+    if (match dst with Some (c :: d) => ends_with [47] (c :: d) | _ => false end) then Err EValue else
+    let dst_truthy := match dst with Some (_ :: _) => true | _ => false end in
+    match dattr s_src_path r1 with
+    | VNone | VStr [] => if dst_truthy then Err EValue else Ok r1
+    | VStr p =>
+        if ends_with [47] p then Err EValue
+        else if starts_with s_image_slash p then Err EValue
+        else if negb (str_eqb p s_image || str_eqb p s_data) && negb (starts_with s_data_slash p) then Err EValue
+        else match dst with
+             | None => Ok (dset s_dst_topic (VStr (if str_eqb p s_image then s_frames else last_component p)) r1)
+             | Some _ => Ok r1
+             end
+    | _ => Err EOther
+    end.
+
+  Definition mqtt_normalize (c : dict cval) : res (dict cval) :=
+    let outs := scm (dattr s_outputs c) in
+    c1 <- base_normalize date_ok (ddel s_outputs c) ;;
+    let c2 := match outs with VNone => c1 | _ => dset s_outputs outs c1 end in
+    if negb (truthy (dattr s_sources c2)) then Err EValue else
+    c3 <- (if truthy outs then
+             match outs with
+             | VList [VStr o] => mqtt_output c2 o
+             | VList [_] => Err EOther
+             | VList _ => Err EValue
+             | _ => Err EOther
+             end
+           else Ok c2) ;;
+    c4 <- match dattr s_client_id c3 with
+          | VBool true =>
+              match dattr s_id c3 with
+              | VStr i => Ok (dset s_client_id (VStr (i ++ s_RANDOM)) c3)
+              | VNone => Ok (dset s_client_id (VStr (s_None ++ s_RANDOM)) c3)
+              | _ => Err EOther
+              end
+          | _ => Ok c3
+          end ;;
+    let ms := scm (dattr s_mappings c4) in
+    let c5 := dset s_mappings ms c4 in
+    if truthy ms then
+      match ms with
+      | VList l =>
+          rs <- mapM mqtt_elem1 l ;;
+          rs' <- mapM mqtt_elem2 rs ;;
+          let dsts := map (dattr s_dst_topic) rs' in
+          if Nat.ltb 1 (length (filter (fun v => negb (not_none v)) dsts)) then Err EValue
+          else if negb (nodup_cval dsts) then Err EValue
+          else Ok (dset s_mappings (VList (map VDict rs')) c5)
+      | _ => Err EOther
+      end
+    else Ok c5.
+
+  (* ---- REST -------------------------------------------------------------------------------------- *)
+  Definition rest_methods : list str := [s_GET; s_POST; s_PUT; s_DELETE].
+  Fixpoint rstrip_char (c : Z) (s : str) : str :=        (* s.rstrip('/') *)
+    match s with
+    | [] => []
+    | x :: s' => match rstrip_char c s' with
+                 | [] => if x =? c then [] else [x]
+                 | r => x :: r
+                 end
+    end.
+
+  (* one endpoint text "[(m|m)]path[>topic]" *)
+  Definition rest_endpoint_text (m : str) : dict cval :=
+    let '(path0, topic) := split1 62 m in
+    let path0 := strip path0 in
+    let '(methods, path) :=
+      match path0 with
+      | 40 :: rest =>
+          let '(ms, p) := split1 41 rest in
+          (Some (map strip (split_on 124 (strip ms))), match p with Some p' => strip p' | None => [] end)
+      | _ => (None, path0)
+      end in
+    (match methods with Some ms => [(s_methods, VList (map VStr ms))] | None => [] end)
+    ++ (if is_empty path then [] else [(s_path, VStr path)])
+    ++ (match topic with
+        | Some t => if is_empty (strip t) then [] else [(s_topic, VStr (strip t))]
+        | None => []
+        end).
+
+  Definition rest_source (c : dict cval) (s : str) : res (dict cval) :=
+    if negb (starts_with s_http_scheme s) then Err EValue else
+    match map strip (split_on 59 s) with
+    | source :: mappings =>
+        let '(addr, path) := split1 47 (skipn 7 source) in
+        let c1 := match path with
+                  | Some (x :: p) => dset s_base_path (VStr (rstrip_char 47 (x :: p))) c
+                  | _ => c
+                  end in
+        c2 <- http_addr c1 addr ;;
+        let c3 := ddel s_sources c2 in
+        let mappings := if is_nil mappings then [[]] else mappings in
+        Ok (dset s_endpoints (VList (map (fun m => VDict (rest_endpoint_text m)) mappings)) c3)
+    | [] => Err EOther
+    end.
+
+  Definition s_None' : str := [78;111;110;101].
+  (* f'({method}){path}' *)
+  Definition method_n_path (m : str) (path : option str) : str :=
+    40 :: m ++ 41 :: match path with Some p => p | None => s_None' end.
+
+  (* defaults and validation of one endpoint; seen = the (method)path strings of the earlier ones *)
+  Definition rest_endpoint (seen : list str) (e : cval) : res (cval * list str) :=
+    match e with
+    | VDict r =>
+        ms <- (let mv := dattr s_methods r in
+               if truthy mv then
+                 match mv with
+                 | VList l | VTuple l =>
+                     mapM (fun x => match x with VStr s => Ok (upper s) | _ => Err EOther end) l
+                 | _ => Err EOther
+                 end
+               else Ok [s_GET; s_POST]) ;;
+        let r1 := dset s_methods (VList (map VStr ms)) r in
+        pr <- (match dattr s_path r1 with
+               | VNone | VStr [] => Ok (dset s_path VNone r1, None)
+               | VStr p =>
+                   if str_eqb p [47] then Ok (dset s_path VNone r1, None)
+                   else if starts_with [47] p then Ok (dset s_path (VStr (skipn 1 p)) r1, Some (skipn 1 p))
+                   else Ok (r1, Some p)
+               | _ => Err EOther
+               end) ;;
+        let '(r2, path) := pr in
+        let r3 := if truthy (dattr s_topic r2) then r2 else dset s_topic (VStr s_main) r2 in
+        if negb (forallb (fun m => str_mem m rest_methods) ms) then Err EValue else
+        let mnps := map (fun m => method_n_path m path) ms in
+        if existsb (fun x => str_mem x seen) mnps then Err EValue
+        else Ok (VDict r3, mnps ++ seen)
+    | _ => Err EOther
+    end.
+
+  Fixpoint rest_endpoints (seen : list str) (l : list cval) : res (list cval) :=
+    match l with
+    | [] => Ok []
+    | e :: l' =>
+        ' (e', seen') <- rest_endpoint seen e ;;
+        es <- rest_endpoints seen' l' ;;
+        Ok (e' :: es)
+    end.
+
+  Definition rest_normalize (c : dict cval) : res (dict cval) :=
+    let srcs := scm (dattr s_sources c) in
+    c1 <- base_normalize date_ok (ddel s_sources c) ;;
+    let c2 := match srcs with VNone => c1 | _ => dset s_sources srcs c1 end in
+    if negb (truthy (dattr s_outputs c2)) then Err EValue else
+    c3 <- (if truthy srcs then
+             if not_none (dattr s_endpoints c2) then Err EValue else
+             match srcs with
+             | VList [VStr s] => rest_source c2 s
+             | VList [_] => Err EOther
+             | VList _ => Err EValue
+             | _ => Err EOther
+             end
+           else Ok c2) ;;
+    c4 <- (match dattr s_base_path c3 with
+           | VNone => Ok c3
+           | VStr [] => Ok (dset s_base_path VNone c3)
+           | VStr bp =>
+               let sw := starts_with [47] bp in
+               let ew := ends_with [47] bp in
+               if sw || ew then
+                 (* base_path[sw : -ew]: with ew = 0 the slice [sw : 0] is empty *)
+                 let r := if ew then removelast (if sw then skipn 1 bp else bp) else [] in
+                 Ok (dset s_base_path (if is_empty r then VNone else VStr r) c3)
+               else Ok c3
+           | v => if truthy v then Err EOther else Ok (dset s_base_path VNone c3)
+           end) ;;
+    c5 <- (let eps := dattr s_endpoints c4 in
+           if truthy eps then
+             match eps with
+             | VList l => es <- rest_endpoints [] l ;; Ok (dset s_endpoints (VList es) c4)
+             | _ => Err EOther
+             end
+           else Ok c4) ;;
+    let c6 := dset s_declared_fps (dattr s_declared_fps c5) c5 in
+    if truthy (dattr s_resource_path c6) then Err EOther     (* os.path.isdir: not modelled *)
+    else Ok c6.
+End WithDates2.
+
 (* ---- encoders / entry points for the correspondence check ------------------------------------- *)
 Fixpoint enc_cval (v : cval) : val :=
   match v with
@@ -645,7 +913,8 @@ Fixpoint enc_cval (v : cval) : val :=
 Definition enc_config (r : res (dict cval)) : val := enc_res (fun d => enc_cval (VDict d)) r.
 
 Definition all_dates_ok (s : str) : bool := true.
-(* class codes: 0 Filter, 1 Util, 2 VideoIn, 3 ImageIn, 4 VideoOut, 5 ImageOut, 6 Recorder, 7 Webvis *)
+(* class codes: 0 Filter, 1 Util, 2 VideoIn, 3 ImageIn, 4 VideoOut, 5 ImageOut, 6 Recorder, 7 Webvis, 8 MQTTOut,
+   9 REST *)
 Definition normalize_cls (cls : Z) (c : dict cval) : res (dict cval) :=
   if cls =? 0 then base_normalize all_dates_ok c
   else if cls =? 1 then util_normalize all_dates_ok c
@@ -654,7 +923,9 @@ Definition normalize_cls (cls : Z) (c : dict cval) : res (dict cval) :=
   else if cls =? 4 then norm_io all_dates_ok video_out_spec c
   else if cls =? 5 then norm_io all_dates_ok image_out_spec c
   else if cls =? 6 then recorder_normalize all_dates_ok c
-  else webvis_normalize all_dates_ok c.
+  else if cls =? 7 then webvis_normalize all_dates_ok c
+  else if cls =? 8 then mqtt_normalize all_dates_ok c
+  else rest_normalize all_dates_ok c.
 Definition run_normalize (x : Z * cval) : val :=
   match snd x with
   | VDict c => enc_config (normalize_cls (fst x) c)
